@@ -141,7 +141,7 @@ func deriveShaOf(v ssa.Value, listType string) bool {
 func c02(c *Ctx) {
 	p, r := c.P, c.R
 	r.Technique = "per-content-type must-pass-through (cut) checks on the history validator (cases enumerated from the switch on the key's selector), comparison-pair table for body/receipt roots, binding check of every network-sourced oracle result, and validation-before-store/return gating in the history network"
-	r.Explanation = "Decides: (R1) for each content-type case of the history validator (every case found must have a rule; unknown selectors must fail): header-by-hash - the proof validator is reached only after hash(decoded header) == key[1:] and success is exactly the proof validator's verdict for that header and that proof; header-by-number - likewise with header.Number == number decoded from the key; body - the header comes from the oracle for key[1:] and success is exactly the body validator's verdict for (content, that header); receipts - success is the receipt validator's verdict for (content, that header's ReceiptHash), the empty shortcut only under ReceiptHash == empty root and len(content) == 0; (R2) the body validator returns nil only after CalcUncleHash(uncles) == header.UncleHash, DeriveSha(transactions) == header.TxHash and DeriveSha(withdrawals) == header.WithdrawalsHash, the last skipped only when header.WithdrawalsHash == nil; the receipt validator only after DeriveSha(receipts) == the root it was given; (R3) every Oracle implementation that obtains its answer over the in-process RPC (network look-ups return unvalidated bytes) binds it before returning: header-by-hash results to the requested hash, summaries to a trusted root; (R4) in the history network every store Put and every success return that follows a network ContentLookup is reached only after ValidateContent(same key, same content) returned nil, and the offered-content loop stores only validated items. Not decided: collision resistance, correctness of DeriveSha/RLP/SSZ decoders, trailing or non-canonical bytes accepted by decoders, the whole rejected set."
+	r.Explanation = "Decides: (R1) for each content-type case of the history validator (every case found must have a rule; unknown selectors must fail): header-by-hash - the proof validator is reached only after hash(decoded header) == key[1:] and success is exactly the proof validator's verdict for that header and that proof; header-by-number - likewise with header.Number == number decoded from the key; body - the header comes from the oracle for key[1:] and success is exactly the body validator's verdict for (content, that header); receipts - success is the receipt validator's verdict for (content, that header's ReceiptHash), the empty shortcut only under ReceiptHash == empty root and len(content) == 0; (R2) the body validator returns nil only after CalcUncleHash(uncles) == header.UncleHash, DeriveSha(transactions) == header.TxHash and DeriveSha(withdrawals) == header.WithdrawalsHash, the last skipped only when header.WithdrawalsHash == nil; the receipt validator only after DeriveSha(receipts) == the root it was given; (R3) every Oracle implementation that obtains its answer over the in-process RPC (network look-ups return unvalidated bytes) binds it before returning: header-by-hash results to the requested hash, summaries to a trusted root; (R4) in the history network every store Put and every success return that follows a network ContentLookup is reached only after ValidateContent(same key, same content) returned nil, and the offered-content loop stores only validated items; outside the history network no store write anywhere in the module takes its content from a network look-up without a ValidateContent gate (the store is trusted by the block getters and the offer filter). Not decided: collision resistance, correctness of DeriveSha/RLP/SSZ decoders, trailing or non-canonical bytes accepted by decoders, the whole rejected set."
 	r.Assumptions = []string{"go-ethereum types.Header.Hash, CalcUncleHash, DeriveSha", "a hash equal to the key's hash identifies the header (collision resistance)"}
 	r.Floor("R1.case", 8)
 	r.Floor("R2.body-roots", 3)
@@ -511,6 +511,7 @@ func c02(c *Ctx) {
 		lostErrorRule(c, "R5.error-not-lost", "history validation path", roots, []string{"history", "validation", "types/history"})
 	}
 
+	c02NoUnvalidatedStore(c)
 	// ---- R4 history network gating
 	hist := p.SSAPkg("history")
 	for _, fn := range p.ModuleFuncs() {
@@ -567,6 +568,63 @@ func c02(c *Ctx) {
 			r.Check(w == nil, "R4.validate-before-store", fmt.Sprintf("%s lookup #%d result", name, i+1), p.Pos(call.Pos()), "a looked-up item is returned only after it validated under the requested key", "content obtained from the network can be returned without validation: "+p.PathString(w))
 		}
 	}
+}
+
+// c02NoUnvalidatedStore: outside the history network's own (validated) paths, nothing obtained
+// from a network look-up is written to a content store. The store is what the block getters and
+// the offer filter trust without re-validating ("already have it").
+func c02NoUnvalidatedStore(c *Ctx) {
+	p, r := c.P, c.R
+	hist := p.SSAPkg("history")
+	isFetch := func(v ssa.Value) bool {
+		ex, ok := v.(*ssa.Extract)
+		if !ok {
+			return false
+		}
+		cc, ok := ex.Tuple.(*ssa.Call)
+		if !ok {
+			return false
+		}
+		f := core.StaticCalleeFn(cc)
+		if f == nil || f.Signature.Recv() == nil || core.TypeName(f.Signature.Recv().Type()) != "PortalProtocol" {
+			return false
+		}
+		n := core.FuncName(f)
+		return strings.HasSuffix(n, "ContentLookup") || strings.HasSuffix(n, ").FindContent") || strings.HasSuffix(n, ").processContent")
+	}
+	nSites := 0
+	for _, fn := range p.ModuleFuncs() {
+		if fn.Pkg == hist && fn.Signature.Recv() != nil && core.TypeName(fn.Signature.Recv().Type()) == "Network" {
+			continue // R4 above demands ValidateContent(same key, same content) for these
+		}
+		if fn.Signature.Recv() != nil && core.TypeName(fn.Signature.Recv().Type()) == "PortalProtocol" && (fn.Name() == "Put" || fn.Name() == "ShouldStore") {
+			continue // the store-write wrappers themselves
+		}
+		nput := 0
+		core.Calls(fn, func(ci ssa.CallInstruction) {
+			cc := ci.Common()
+			isWrite := strings.HasSuffix(core.CalleeID(ci), "portalwire.(*PortalProtocol).Put") || strings.HasSuffix(core.CalleeID(ci), "portalwire.(*PortalProtocol).ShouldStore") ||
+				(cc.IsInvoke() && cc.Method.Name() == "Put" && core.TypeName(cc.Value.Type()) == "ContentStorage")
+			if !isWrite || len(cc.Args) == 0 {
+				return
+			}
+			nSites++
+			nput++
+			content := cc.Args[len(cc.Args)-1]
+			fetched := core.Derives(content, isFetch, core.DeriveOpts{})
+			if !fetched {
+				return
+			}
+			// validated first?
+			g := core.ErrNilGate("validate", func(c2 *ssa.Call) bool {
+				k := c2.Call
+				return k.IsInvoke() && k.Method.Name() == "ValidateContent" && len(k.Args) == 2 && derivesSame(k.Args[1], content)
+			})
+			w := core.InstrGuarded(ci, g.Edge, nil)
+			r.Check(w == nil, "R4.validate-before-store", fmt.Sprintf("%s stores-lookup-result #%d", core.FuncName(fn), nput), p.Pos(ci.Pos()), "a looked-up item is stored only after it validated under its key", "bytes a peer returned for a look-up are written to the content store without validation; the block getters and the offer filter then trust the stored item (whatever it is) as the content of that key: "+p.PathString(w))
+		})
+	}
+	r.Check(nSites >= 5, "R4.validate-before-store", "store-write sites outside the history network", "-", fmt.Sprintf("%d store-write call sites inspected: none writes the result of a network look-up unvalidated", nSites), fmt.Sprintf("only %d store-write call sites found", nSites))
 }
 
 // derivesSame: a derives from the same underlying value as b (e.g. both from one decode call).
